@@ -24,7 +24,9 @@ def points():
         for macro, uni, api, mockall, export in itertools.product(MACROS, TRI, [False, True], TRI, TRI):
             if target == "trait" and export is not None:
                 continue  # `export` is not an option of trait inputs (rejected; C15/C17 negative corpus)
-            yield {"target": target, "macro": macro, "unimock": uni, "mock_api": api, "mockall": mockall, "export": export}
+            # the requested trait visibility is not part of the property's oracle: the result must not depend on it
+            for vis in ("", "pub ", "pub(crate) "):
+                yield {"target": target, "macro": macro, "unimock": uni, "mock_api": api, "mockall": mockall, "export": export, "vis": vis}
 
 
 def oracle(p, feature, test):
@@ -45,18 +47,18 @@ def source(idx, p):
     opts = [o for o in (opt("unimock", p["unimock"]), "mock_api = TMock" if p["mock_api"] else None,
                         opt("mockall", p["mockall"]), opt("export", p["export"])) if o]
     if p["target"] == "fn":
-        args = ", ".join(["T"] + opts)
+        args = ", ".join([p["vis"] + "T"] + opts)
         item = "#[%s(%s)] fn f<D>(deps: &D, a: u8) -> u8 { a }" % (p["macro"], args)
     elif p["target"] == "fnc":
         # concrete dependency: the trait additionally goes through a nested entrait invocation
-        args = ", ".join(["T"] + opts)
+        args = ", ".join([p["vis"] + "T"] + opts)
         item = "pub struct App; #[%s(%s)] fn f(deps: &App, a: u8) -> u8 { a }" % (p["macro"], args)
     elif p["target"] == "mod":
-        args = ", ".join(["pub T"] + opts)
+        args = ", ".join([p["vis"] + "T"] + opts)
         item = "#[%s(%s)] pub mod inner { pub fn f<D>(deps: &D, a: u8) -> u8 { a } }" % (p["macro"], args)
     else:
         args = ", ".join(opts)
-        item = "#[%s%s] pub trait T { fn f(&self, a: u8) -> u8; }" % (p["macro"], "(%s)" % args if args else "")
+        item = "#[%s%s] %strait T { fn f(&self, a: u8) -> u8; }" % (p["macro"], "(%s)" % args if args else "", p["vis"])
     return "#[cfg(not(skip_p%d))] pub mod p%d { use entrait::*; %s }" % (idx, idx, item)
 
 
@@ -107,8 +109,8 @@ def run(tier):
                 by_mod[int(m.group(1))] = exp
         for i, p in enumerate(pts):
             evaluations += 1
-            label = "%s %s unimock=%s mock_api=%s mockall=%s export=%s" % (
-                p["target"], p["macro"], p["unimock"], p["mock_api"], p["mockall"], p["export"])
+            label = "%s %s unimock=%s mock_api=%s mockall=%s export=%s vis=%s" % (
+                p["target"], p["macro"], p["unimock"], p["mock_api"], p["mockall"], p["export"], p["vis"].strip() or "private")
             key = "[%s] %s" % (cfgname, label)
             if "p%d" % i in failures:
                 d = failures["p%d" % i][0]
@@ -151,7 +153,7 @@ def run(tier):
     rep.coverage.update({
         "evaluations": evaluations,
         "distinct_nontrivial": len(distinct),
-        "rule": "all points of {entrait, entrait_export} x unimock{absent,true,false} x mock_api{absent,present} x mockall{absent,true,false} x export{absent,true,false} x {fn with generic deps, fn with concrete deps, mod} plus the same without `export` for trait (360 points), in %d of the 4 configurations {feature} x {cfg(test)}; points that name unimock explicitly without the cargo feature reference a path that does not exist and are excluded there; every point is non-trivial (a distinct option set); observed per point: is there an `impl Trait for unimock::Unimock` (tcx impls), is the stub-mockall marker `MockT` defined, is the impl target T or Impl<T>" % len(configs),
+        "rule": "all points of {entrait, entrait_export} x unimock{absent,true,false} x mock_api{absent,present} x mockall{absent,true,false} x export{absent,true,false} x {fn with generic deps, fn with concrete deps, mod} plus the same without `export` for trait, each with the requested trait visibility private / pub / pub(crate) (1 080 points; the oracle does not depend on the visibility), in %d of the 4 configurations {feature} x {cfg(test)}; points that name unimock explicitly without the cargo feature reference a path that does not exist and are excluded there; every point is non-trivial (a distinct option set); observed per point: is there an `impl Trait for unimock::Unimock` (tcx impls), is the stub-mockall marker `MockT` defined, is the impl target T or Impl<T>" % len(configs),
         "exhaustive": True,
         "explanation": "oracle transcribed from the property: unimock enabled = explicit value, else cargo feature; for fn/mod additionally mock_api given; mockall enabled = option true; exporting = explicit export value, else macro is entrait_export; a mock derivation is present in a configuration iff enabled and (exporting or cfg(test))",
     })
